@@ -12,7 +12,11 @@ EXTENDS GlomCli
 CONSTANTS SFmts,      \* values of --spec-format explored ("default" = flag absent)
           TFmts,      \* values of --target-format explored
           Indents,    \* values of --indent explored ("default" = flag absent)
-          TxtIds      \* spec-text classes explored
+          TxtIds,     \* spec-text classes explored
+          Argvs,      \* argv syntax cases explored ("ok", "badindent", "toomany", "unknownflag")
+          SExts,      \* spec-file name extensions explored ("any": the harness draws one per run)
+          TExts,      \* target-file name extensions explored
+          Dbgs        \* "off", "debug" (--debug), "inspect" (--inspect)
 
 AllTextClasses ==
   { TxtClass("qstr1",  "quote",   TRUE,  FALSE, TRUE,  TRUE,  FALSE),   \* 'a.b'
@@ -42,50 +46,68 @@ Init == m = M0(Cfg0, <<>>) /\ model = "MC_C19"
 
 Unknown(pc, part) == m.pc = pc /\ ~Known(part)
 
+RevealF == Unknown("argv", "f") /\ \E a \in Argvs : Reveal("f", [argv |-> a])
+
 RevealS ==
   /\ Unknown("spec", "s")
-  /\ \E a \in {"none", "text", "empty"}, f \in {"none", "ok", "unreadable"}, fm \in SFmts,
-        tx \in Texts \cup {EmptyTxt} :
+  /\ \E a \in {"none", "text", "empty"}, f \in {"none", "ok", "unreadable", "dash"}, fm \in SFmts,
+        tx \in Texts \cup {EmptyTxt}, x \in SExts \cup {"-"} :
+       /\ (x = "-") = (f # "ok")                       \* a name only matters for a file that is read
        \* tx describes the argument text if there is one, else the content of the spec file
        /\ (a = "text" => tx.lead # "none")
        /\ (a # "text" /\ f # "ok" => tx = EmptyTxt)
        \* nothing of the text is looked at when the spec source itself is rejected
        /\ ((a = "text" /\ f # "none") => tx.id = "bare")
-       /\ Reveal("s", [arg |-> a, file |-> f, fmt |-> fm, txt |-> tx])
+       /\ ((a = "text" /\ f = "ok") => x = CHOOSE y \in SExts : TRUE)
+       /\ Reveal("s", [arg |-> a, file |-> f, ext |-> x, fmt |-> fm, txt |-> tx])
 
 RevealT ==
   /\ Unknown("select", "t")
-  /\ \E a \in {"none", "text", "dash"}, f \in {"none", "ok", "okempty", "unreadable", "dash"},
-        sd \in {"empty", "data"} :
+  /\ \E a \in {"none", "text", "dash", "empty"}, f \in {"none", "ok", "okempty", "unreadable", "dash"},
+        sd \in {"empty", "data"}, x \in TExts \cup {"-"} :
        /\ (a # "none" => m.cfg.s.arg # "none")        \* a second positional needs a first
-       /\ Reveal("t", [arg |-> a, file |-> f, stdin |-> sd])
+       /\ (x = "-") = (f \notin {"ok", "okempty"})
+       /\ (a = "empty" => f = "none")                  \* '' is falsy: with a file it is as if absent
+       /\ ((a \in {"text", "dash"} /\ f \in {"ok", "okempty"}) => x = CHOOSE y \in TExts : TRUE)
+       /\ Reveal("t", [arg |-> a, file |-> f, ext |-> x, stdin |-> sd])
+
+\* The machine never reads a file name, so behaviours that differ only in an extension are
+\* bisimilar.  An explicitly enumerated extension (not "any", which the harness draws per run)
+\* is crossed with everything the spec / select phases look at, and with one slice of the later
+\* parts only.
+Slice == m.cfg.s.ext \notin {"any", "-"} \/ m.cfg.t.ext \notin {"any", "-"}
 
 RevealL ==
   /\ Unknown("load", "l")
   /\ \E fm \in TFmts, tx \in {"good", "malformed"} :
        /\ (SelEmpty => (fm = "default" /\ tx = "good"))   \* nothing to look at
+       /\ (Slice => fm = "default")
        /\ Reveal("l", [fmt |-> fm, txt |-> tx])
 
 \* outcomes of the library that some (target, spec) pair can realise
 RevealR ==
   /\ Unknown("run", "r")
-  /\ \E res \in {"coll", "str", "int", "other", "glomerr"} :
+  /\ \E res \in {"coll", "str", "int", "float", "other", "glomerr"}, d \in Dbgs :
+       /\ (d = "inspect" => res \in {"coll", "glomerr"})   \* the outcome is not looked at
+       /\ (Slice => (d = "off" /\ res \in {"coll", "glomerr"}))
        /\ (m.route = "ident" => res # "glomerr")
        /\ (m.route = "ident" /\ (m.tgt = "emptymap" \/ TFmt = "toml") => res = "coll")
        /\ (m.tgt = "emptymap" /\ m.route # "ident" => res \in {"coll", "glomerr"})
        /\ (m.tgt = "emptymap" /\ m.route # "ident" /\ m.cfg.s.txt.lead # "bracket" => res = "glomerr")
        /\ (m.route # "ident" /\ ~CanSucceed(m.cfg.s.txt, m.route) => res = "glomerr")
        /\ (m.route # "ident" /\ OnlyCollections(m.cfg.s.txt) => res \in {"coll", "glomerr"})
-       /\ Reveal("r", [res |-> res])
+       /\ Reveal("r", [res |-> res, dbg |-> d])
 
 RevealP ==
   /\ Unknown("print", "p")
-  /\ \E ind \in Indents, sc \in {"on", "off"} : Reveal("p", [indent |-> ind, scalar |-> sc])
+  /\ \E ind \in Indents, sc \in {"on", "off"} :
+       /\ (Slice => (ind = "default" /\ sc = "off"))
+       /\ Reveal("p", [indent |-> ind, scalar |-> sc])
 
-Next == (RevealS \/ RevealT \/ RevealL \/ RevealR \/ RevealP \/ CliNext) /\ UNCHANGED model
+Next == (RevealF \/ RevealS \/ RevealT \/ RevealL \/ RevealR \/ RevealP \/ CliNext) /\ UNCHANGED model
 
 \* the machine never gets stuck before it is done (every dispatch case is covered)
 NoStuck == m.pc # "done" => ENABLED Next
 \* a done state has looked at exactly a prefix of the configuration parts
-KnownPrefix == \A i \in 1..Len(m.known) : m.known[i] = <<"s", "t", "l", "r", "p">>[i]
+KnownPrefix == \A i \in 1..Len(m.known) : m.known[i] = <<"f", "s", "t", "l", "r", "p">>[i]
 ====================================================================================
